@@ -38,7 +38,22 @@ fn single_file_projects() -> Vec<Project> {
         .collect()
 }
 
-pub fn all_projects() -> Vec<Project> {
+/// index-stable list shared with the second process: fixed projects first, then every DAG project
+pub fn all_projects() -> &'static Vec<Project> {
+    static ALL: std::sync::OnceLock<Vec<Project>> = std::sync::OnceLock::new();
+    ALL.get_or_init(|| {
+        let mut v = fixed_projects();
+        v.extend(dag_projects());
+        v
+    })
+}
+
+fn n_fixed() -> usize {
+    static N: std::sync::OnceLock<usize> = std::sync::OnceLock::new();
+    *N.get_or_init(|| fixed_projects().len())
+}
+
+fn fixed_projects() -> Vec<Project> {
     let mut v = corpus_projects();
     v.extend(generated_projects());
     v.extend(erroneous_projects());
@@ -147,11 +162,13 @@ impl Family for Determinism {
         300
     }
     fn rule(&self) -> &'static str {
-        "projects = 8 corpus projects + 6 generated + 4 ill-typed variants + 2 projects with several diagnostics / several impls + 74 single-file corpus programs; for each: hash seeds 0..15 (quick) / 0..127 (thorough) x 2 file creation orders x {whole-program compile, separate build+link through files} in this process, plus a second process for seeds 0 and 1; observables: Go text, Core/Mono/Lift/ANF dumps, ordered diagnostics, .interface/.core JSON (incl. interface hashes); oracle: byte-identical to the seed-0 baseline. Non-vacuity: the number of distinct package discovery orders produced by the seeds is measured per project. non-trivial = projects for which the seeds produced more than one iteration order of a seeded set of its package names (measured); distinct = distinct (project, seed, order)"
+        "projects = 8 corpus projects + 6 generated + 4 ill-typed variants + 2 projects with several diagnostics / several impls + 74 single-file corpus programs + one project per import DAG on 5 packages in which Main reaches every package (10 possible edges; <= 4 edges, plus the 5-edge ones in one naming, in quick; all in thorough) x 2 directory namings (alphabetical order agreeing with / opposing the topological order) x {well-typed, every leaf ill-typed, every leaf declaring a wrong package name}; for each: hash seeds 0..15 (quick) / 0..127 (thorough) (DAG projects: 0..7 / 0..31) x 2 file creation orders x {whole-program compile, separate build+link through files} in this process, plus a second process for seeds 0 and 1; observables: Go text, Core/Mono/Lift/ANF dumps, ordered diagnostics, .interface/.core JSON (incl. interface hashes); oracle: byte-identical to the seed-0 baseline. Non-vacuity: the number of distinct package discovery orders produced by the seeds is measured per project. non-trivial = projects for which the seeds produced more than one iteration order of a seeded set of its package names (measured); distinct = distinct (project, seed, order)"
     }
-    fn cases(&self, _tier: Tier) -> Box<dyn Iterator<Item = Value> + '_> {
-        let n = all_projects().len();
-        Box::new((0..n).map(|i| json!({"project": i})))
+    fn cases(&self, tier: Tier) -> Box<dyn Iterator<Item = Value> + '_> {
+        let nf = n_fixed();
+        let specs = dag_specs();
+        let dag: Vec<usize> = specs.iter().enumerate().filter(|(_, sp)| dag_in_tier(sp, tier == Tier::Quick)).map(|(i, _)| nf + i).collect();
+        Box::new((0..nf).chain(dag.into_iter()).map(|i| json!({"project": i})))
     }
     fn run(&self, case: &Value, ctx: &mut Ctx) -> Report {
         let mut rep = Report::default();
@@ -162,7 +179,13 @@ impl Family for Determinism {
         let projs = all_projects();
         let idx = case["project"].as_u64().unwrap() as usize;
         let proj = &projs[idx];
-        let seeds: u64 = if ctx.tier == Tier::Quick { 16 } else { 128 };
+        let is_dag = idx >= n_fixed();
+        let seeds: u64 = match (ctx.tier == Tier::Quick, is_dag) {
+            (true, false) => 16,
+            (true, true) => 8,
+            (false, false) => 128,
+            (false, true) => 32,
+        };
         let root = ctx.scratch.fresh_dir("proj");
         let outdir = ctx.scratch.fresh_dir("out");
         let fwd: Vec<usize> = (0..proj.files.len()).collect();
